@@ -105,8 +105,17 @@ func extSlicesClone(x *Exec, fr *Frame, st *State, fn *ssa.Function, args []*SV,
 	if fr.pure {
 		unsupportedf("slices.Clone in pure evaluation")
 	}
-	// nil stays nil
 	isNil := Eq(arr, IntLit(0, SInt))
+	// nil stays nil
+	st1, fr1 := st.clone(), fr.clone()
+	st1.assume(isNil)
+	if x.feasible(st1) {
+		k(st1, fr1, TV(w.Zero(fn.Signature.Results().At(0).Type())))
+	}
+	st.assume(Not(isNil))
+	if !x.feasible(st) {
+		return
+	}
 	r := x.newRef(st)
 	n, e := x.elemComp(st.heap, et)
 	row := Select(e, arr)
@@ -120,8 +129,7 @@ func extSlicesClone(x *Exec, fr *Frame, st *State, fn *ssa.Function, args []*SV,
 	if w.Mode == "bv" {
 		st.assume(w.Le(cp, w.Int(1<<41)))
 	}
-	res := Ite(isNil, w.Zero(fn.Signature.Results().At(0).Type()), w.slice.Make(r, w.Int(0), ln, cp))
-	k(st, fr, TV(res))
+	k(st, fr, TV(w.slice.Make(r, w.Int(0), ln, cp)))
 }
 
 func extNoReturnPanic(x *Exec, fr *Frame, st *State, fn *ssa.Function, args []*SV, site ssa.Instruction, k callK) {
